@@ -121,16 +121,19 @@ class C02(Prop):
             for op in case["ops"]:
                 s3.do(op)
             o1, o3 = s.obs[k + 1], s3.obs[k + 1]
-            if o1["status"].startswith("ok") and o1.get("traded") and o3["status"].startswith("ok") and o3.get("traded"):
-                t1 = sorted((x.contract.symbol, F(x.quantity), F(x.acq_price)) for x in o1["info"]["_rebalancing"].trades)
-                t3 = sorted((x.contract.symbol, F(x.quantity), F(x.acq_price)) for x in o3["info"]["_rebalancing"].trades)
-                if t1 != t3:
-                    r.fail("execution-looks-ahead", cut=t, latency=lat, trades=str(t1)[:300], twin=str(t3)[:300],
+            # the execution of that step is what is recorded (the step may still end differently afterwards: its
+            # post-trade events are stamped after t + latency and may even ruin the twin's account, C09/K2)
+            e1 = o1["nrec_after"] == o1["nrec_before"] + 1
+            e3 = o3["nrec_after"] == o3["nrec_before"] + 1
+            if e1 != e3:
+                r.fail("execution-looks-ahead", cut=t, latency=lat, executed=(e1, e3), theorem="latent_within_latency")
+            elif e1:
+                d1 = record_dump(s.env, 10**6)[o1["nrec_after"] - 1] if len(s.env.broker.track_record) >= o1["nrec_after"] else None
+                d3 = record_dump(s3.env, 10**6)[o3["nrec_after"] - 1] if len(s3.env.broker.track_record) >= o3["nrec_after"] else None
+                if d1 is not None and d3 is not None and (d1[0], d1[1], d1[2], d1[4]) != (d3[0], d3[1], d3[2], d3[4]):
+                    r.fail("execution-looks-ahead", cut=t, latency=lat, entry=str(d1)[:300], twin=str(d3)[:300],
                            theorem="latent_within_latency",
                            clause="the trades executed in the following step depend on nothing stamped after t + latency")
-            elif o1["status"] != o3["status"]:
-                r.fail("execution-looks-ahead", cut=t, latency=lat, status=(o1["status"], o3["status"]),
-                       theorem="latent_within_latency")
         return r
 
     # ------------------------------------------------------------------ tabular API
